@@ -9,8 +9,8 @@
 # for the properties that have a libFuzzer target (C06 kv, C07 prefix, C18 addr, C09 bank,
 # C17 routing, the tree-engine properties C01-C05 C08 C10-C13 through `tree`, C14-C16 through
 # `staking`; the property is passed in VERIF_FUZZ_ID), a coverage-guided campaign of a fixed number
-# of runs over the same generator and oracle, started from a fresh temporary corpus seeded from
-# /verif/fuzz/seeds/<target>.
+# of runs over the same generator and oracle (split over 8 independent libFuzzer processes), started
+# from fresh temporary corpora seeded from /verif/fuzz/seeds/<target>.
 ID="$1"; TIER="${2:-quick}"
 [ -n "$ID" ] || { echo "usage: run.sh <ID> <quick|thorough> [--replay FILE]" >&2; exit 2; }
 shift; [ $# -gt 0 ] && shift
@@ -48,26 +48,41 @@ if ! (cd "$VERIF_ROOT/harness" && cargo +nightly fuzz build --fuzz-dir "$FZ" -s 
 fi
 TMP=$(mktemp -d "${TMPDIR:-/var/tmp}/vfuzz.$TARGET.XXXXXX")
 trap 'rm -rf "$TMP"' EXIT INT TERM
-mkdir -p "$TMP/corpus" "$TMP/artifacts"
 SEED="${VERIF_SEED:-0}"; [ "$SEED" = "0" ] && SEED=1
-BEFORE=$(ls "$VERIF_ROOT/replays" 2>/dev/null | wc -l)
-"$FZ/target/x86_64-unknown-linux-gnu/release/$TARGET" "$TMP/corpus" "$FZ/seeds/$TARGET" \
-   -runs="$RUNS" -seed="$SEED" -len_control=0 -max_len="$MAXLEN" -timeout=60 -rss_limit_mb=4096 \
-   -artifact_prefix="$TMP/artifacts/" -print_final_stats=1 >"$TMP/fuzz.log" 2>&1
-frc=$?
-grep -E "^(failure|VIOLATION)|stat::number_of_executed_units|stat::new_units_added" "$TMP/fuzz.log" | head -10
-EXECS=$(grep -E "stat::number_of_executed_units" "$TMP/fuzz.log" | awk '{print $2}')
-python3 - "$VERIF_ROOT/evidence/$ID.json" "$TARGET" "${EXECS:-0}" "$frc" <<'EOF' 2>/dev/null
+# the campaign is split over $JOBS independent libFuzzer processes (own corpus, own seed), each
+# doing RUNS/JOBS executions
+JOBS="${VERIF_FUZZ_JOBS:-8}"
+PER=$(( (RUNS + JOBS - 1) / JOBS ))
+i=0
+while [ $i -lt $JOBS ]; do
+  mkdir -p "$TMP/corpus$i" "$TMP/artifacts$i"
+  "$FZ/target/x86_64-unknown-linux-gnu/release/$TARGET" "$TMP/corpus$i" "$FZ/seeds/$TARGET" \
+     -runs="$PER" -seed="$((SEED * 100 + i))" -len_control=0 -max_len="$MAXLEN" -timeout=60 -rss_limit_mb=4096 \
+     -artifact_prefix="$TMP/artifacts$i/" -print_final_stats=1 >"$TMP/fuzz$i.log" 2>&1 &
+  eval "PID$i=$!"
+  i=$((i + 1))
+done
+frc=0; i=0
+while [ $i -lt $JOBS ]; do
+  eval "wait \$PID$i"; r=$?
+  [ $r -ne 0 ] && frc=$r
+  i=$((i + 1))
+done
+cat "$TMP"/fuzz*.log > "$TMP/fuzz.log"
+grep -E "^failure" "$TMP/fuzz.log" | head -6
+EXECS=$(grep -E "stat::number_of_executed_units" "$TMP/fuzz.log" | awk '{s+=$2} END {print s+0}')
+echo "libFuzzer $TARGET: $JOBS processes, $EXECS executions"
+python3 - "$VERIF_ROOT/evidence/$ID.json" "$TARGET" "${EXECS:-0}" "$frc" "$JOBS" <<'EOF2' 2>/dev/null
 import json, sys
-p, target, execs, frc = sys.argv[1], sys.argv[2], int(sys.argv[3] or 0), int(sys.argv[4])
+p, target, execs, frc, jobs = sys.argv[1], sys.argv[2], int(sys.argv[3] or 0), int(sys.argv[4]), int(sys.argv[5])
 try:
     e = json.load(open(p))
-    e["coverage"]["libfuzzer"] = {"target": target, "executions": execs, "exit_code": frc, "note": "coverage-guided campaign over the same generator and oracle; only approximately reproducible from the seed, the saved replay file is the reproducible unit"}
+    e["coverage"]["libfuzzer"] = {"target": target, "processes": jobs, "executions": execs, "exit_code": frc, "note": "coverage-guided campaign over the same generator and oracle, split over independent processes; only approximately reproducible from the seed, the saved replay file is the reproducible unit"}
     e["coverage"]["evaluations"] = e["coverage"].get("evaluations", 0) + execs
     json.dump(e, open(p, "w"), indent=1)
 except Exception as ex:
     print("could not amend evidence:", ex)
-EOF
+EOF2
 if grep -q "^VIOLATION" "$TMP/fuzz.log"; then
   grep "^VIOLATION" "$TMP/fuzz.log" | head -3
   exit 1
